@@ -1,58 +1,62 @@
 (* Correspondence judge for C07.  Two kinds of cases:
-     CTable : a group key, the declared field list fs, the normal form nfs the harness declared the two
-              add_argument styles from, and the action tables observed on the four real parsers
+     CTable : a group key, the declared members ms (leaves with optional declaration-time default overrides,
+              dataclass-typed members = nested sub-groups), the normal form nms the harness declared the two
+              add_argument styles from, whether the class style's default= dict is complete, and the action tables
+              observed on the four real parsers (None: the declaration raised)
      CRun   : the same declaration, one input, the observed external loaders (as finite tables) and what each of the
               four real parsers answered (parse result or rejection, dumped content and dump text)
-   v_model : nfs is Model.C07Decl.norm fs, and the compilers of Model/C07Decl.v give exactly the observed tables /
+   v_model : nms is Model.C07Decl.mnorm ms, and the compilers of Model/C07Decl.v give exactly the observed tables /
              Model/C07Parse.v run on the model tables gives exactly the observed answers, for all four styles;
-   v_class : Model.C07Parse.finding_class — the same function the theorem C07_four_styles_agree is guarded with;
+   v_class : Model.C07Parse.finding_class_m — the same function the theorems are guarded with;
    v_spec  : Spec/C07Spec.v, on the observations only. *)
 From JV Require Import Lib.Base Model.C07Decl Model.C07Parse Spec.C07Spec.
 
 Inductive case :=
-| CTable (gk : str) (fs nfs : list field) (obs : four table)
-| CRun (gk : str) (fs nfs : list field) (inp : input) (pvt jlt : list (str * val)) (obs : four style_run).
+| CTable (gk : str) (ms nms : list member) (full : bool) (obs : four (option table))
+| CRun (gk : str) (ms nms : list member) (full : bool) (inp : input) (pvt jlt : list (str * val))
+       (obs : four style_run).
 
 Definition tab_fun (t : list (str * val)) (s : str) : val :=
   match lookup s t with Some v => v | None => VStr s end.
 
-(* fixed = false: the unchanged tree; fixed = true: with fixes/C07-inner-hyphen-required.patch applied *)
-Definition model_tables (fixed : bool) (gk : str) (fs : list field) : four table :=
-  {| q_dotted := as_dotted gk (norm fs);
-     q_dcls := as_dataclass (dashes ++ gk) fs;
-     q_cls := as_class_group gk fs;
-     q_inner := if fixed then as_inner_parser_fixed (dashes ++ gk) (norm fs)
-                else as_inner_parser (dashes ++ gk) (norm fs) |}.
+Definition model_tables (gk : str) (ms : list member) (full : bool) : four (option table) :=
+  {| q_dotted := Some (as_dotted_m gk (mnorm ms));
+     q_dcls := as_dataclass_m (dashes ++ gk) ms;
+     q_cls := as_class_group_m full gk ms;
+     q_inner := Some (as_inner_parser_m (dashes ++ gk) (mnorm ms)) |}.
 
 Definition four_all2 {A B} (f : A -> B -> bool) (a : four A) (b : four B) : bool :=
   f (q_dotted a) (q_dotted b) && f (q_dcls a) (q_dcls b) && f (q_cls a) (q_cls b) && f (q_inner a) (q_inner b).
 
-(* the model's answer against one observed answer *)
-Definition run_agrees (pv jl : str -> val) (T : table) (inp : input) (o : style_run) : bool :=
-  match run pv jl T inp, sr_out o, sr_dump o with
-  | Ok (c, d), OOk c', Some (d', _) => ns_eqb c c' && ns_eqb d d'
-  | Reject, OReject, None => true
-  | Exited, OExit, None => true
-  | _, _, _ => false
+(* the model's answer against one observed answer; a declaration that raises answers nothing *)
+Definition run_agrees (pv jl : str -> val) (T : option table) (inp : input) (o : style_run) : bool :=
+  match T with
+  | None => match sr_out o, sr_dump o with OOther, None => true | _, _ => false end
+  | Some T =>
+      match run pv jl T inp, sr_out o, sr_dump o with
+      | Ok (c, d), OOk c', Some (d', _) => ns_eqb c c' && ns_eqb d d'
+      | Reject, OReject, None => true
+      | Exited, OExit, None => true
+      | _, _, _ => false
+      end
   end.
 
-Definition norm_agrees (fs nfs : list field) : bool := list_eqb field_eqb nfs (norm fs).
+Definition norm_agrees (ms nms : list member) : bool := list_eqb member_eqb nms (mnorm ms).
 
 Definition no_input : input := {| i_env := []; i_entry := EArgs [] |}.
 
-Definition judge1_gen (fixed : bool) (c : case) : verdict :=
+Definition judge1_raw (c : case) : verdict :=
   match c with
-  | CTable gk fs nfs obs =>
-      {| v_model := norm_agrees fs nfs && four_all2 table_eqb (model_tables fixed gk fs) obs;
-         v_class := if fixed then finding_class_fixed (fun s => VStr s) gk fs no_input
-                    else finding_class (fun s => VStr s) gk fs no_input;
-         v_spec := tables_agree obs |}
-  | CRun gk fs nfs inp pvt jlt obs =>
+  | CTable gk ms nms full obs =>
+      {| v_model := norm_agrees ms nms && four_all2 (option_eqb table_eqb) (model_tables gk ms full) obs;
+         v_class := finding_class_m (fun s => VStr s) gk ms no_input;
+         v_spec := tables_agree_opt obs |}
+  | CRun gk ms nms full inp pvt jlt obs =>
       let pv := tab_fun pvt in
       let jl := tab_fun jlt in
-      {| v_model := norm_agrees fs nfs
-                    && four_all2 (fun T o => run_agrees pv jl T inp o) (model_tables fixed gk fs) obs;
-         v_class := if fixed then finding_class_fixed pv gk fs inp else finding_class pv gk fs inp;
+      {| v_model := norm_agrees ms nms
+                    && four_all2 (fun T o => run_agrees pv jl T inp o) (model_tables gk ms full) obs;
+         v_class := finding_class_m pv gk ms inp;
          v_spec := answers_agree obs |}
   end.
 
@@ -62,20 +66,5 @@ Definition strict (v : verdict) : verdict :=
   if negb (v_model v) && negb (v_spec v) && negb (N.eqb (v_class v) 0)
   then {| v_model := false; v_class := 99; v_spec := false |} else v.
 
-(* The judge follows the tree: a case is judged against the faithful model of the unchanged tree; when that model
-   does not reproduce the observation but the model of the repaired tree does (fixes/C07-inner-hyphen-required.patch
-   applied), it is judged against that one, whose guard finding_class_fixed has no class 5 (theorem
-   C07_four_styles_agree_fixed).  So after the fix lands nothing has to be switched: class 5 is simply no longer
-   produced (drop its open: line from known_findings/C07.txt — a regression is then an unlisted class, i.e. a
-   violation).  judge_unfixed / judge_fixed pin one of the two models. *)
-Definition judge1_unfixed (c : case) : verdict := strict (judge1_gen false c).
-Definition judge1_fixed (c : case) : verdict := strict (judge1_gen true c).
-Definition judge1 (c : case) : verdict :=
-  let v := judge1_unfixed c in
-  if v_model v then v else
-  let w := judge1_fixed c in
-  if v_model w then w else v.
-
+Definition judge1 (c : case) : verdict := strict (judge1_raw c).
 Definition judge (cs : list case) := judge_all judge1 cs.
-Definition judge_unfixed (cs : list case) := judge_all judge1_unfixed cs.
-Definition judge_fixed (cs : list case) := judge_all judge1_fixed cs.
